@@ -69,6 +69,8 @@ static std::string qstr(double x) {
 static std::string vecq(const Eigen::VectorXd& v) {
   std::string r; for (int i = 0; i < v.size(); i++) { if (i) r += ' '; r += qstr(v(i)); } return r;
 }
+static const long CAP = 20000;   // no range of the generated inputs has that many elements; a broken iterator must not run forever
+#define RUNAWAY(cnt) if (++cnt > CAP) { r = "RUNAWAY"; break; }
 template <class U> static std::string ulist(const U& v) {
   std::string r; bool first = true; for (auto x : v) { if (!first) r += ','; first = false; r += std::to_string(x); } return r;
 }
@@ -103,19 +105,19 @@ int main() {
         r = "ok";
       } else if (w == "V") {
         Simplex s = parse_simplex(a[0]);
-        bool f = true; for (const auto& v : s.vertex_range()) { if (!f) r += ' '; f = false; r += vstr(v); }
+        bool f = true; long cnt = 0; for (const auto& v : s.vertex_range()) { RUNAWAY(cnt) if (!f) r += ' '; f = false; r += vstr(v); }
       } else if (w == "D") {
         r = std::to_string(parse_simplex(a[0]).dimension());
       } else if (w == "F" || w == "FT") {
         Simplex s = parse_simplex(w == "F" ? a[1] : a[0]);
-        bool f = true;
-        if (w == "F") { for (const auto& x : s.face_range(std::stoul(a[0]))) { if (!f) r += ' '; f = false; r += sstr(x); } }
-        else { for (const auto& x : s.facet_range()) { if (!f) r += ' '; f = false; r += sstr(x); } }
+        bool f = true; long cnt = 0;
+        if (w == "F") { for (const auto& x : s.face_range(std::stoul(a[0]))) { RUNAWAY(cnt) if (!f) r += ' '; f = false; r += sstr(x); } }
+        else { for (const auto& x : s.facet_range()) { RUNAWAY(cnt) if (!f) r += ' '; f = false; r += sstr(x); } }
       } else if (w == "C" || w == "CT") {
         Simplex s = parse_simplex(w == "C" ? a[1] : a[0]);
-        bool f = true;
-        if (w == "C") { for (const auto& x : s.coface_range(std::stoul(a[0]))) { if (!f) r += ' '; f = false; r += sstr(x); } }
-        else { for (const auto& x : s.cofacet_range()) { if (!f) r += ' '; f = false; r += sstr(x); } }
+        bool f = true; long cnt = 0;
+        if (w == "C") { for (const auto& x : s.coface_range(std::stoul(a[0]))) { RUNAWAY(cnt) if (!f) r += ' '; f = false; r += sstr(x); } }
+        else { for (const auto& x : s.cofacet_range()) { RUNAWAY(cnt) if (!f) r += ' '; f = false; r += sstr(x); } }
       } else if (w == "I") {
         Simplex s = parse_simplex(a[0]), u = parse_simplex(a[1]);
         r = s.is_face_of(u) ? "1" : "0";
@@ -124,21 +126,21 @@ int main() {
         r = std::string(s == u ? "1" : "0") + (s != u ? "1" : "0");
       } else if (w == "CMB") {
         unsigned n = std::stoul(a[0]), k = std::stoul(a[1]);
-        bool f = true;
-        for (Combination_iterator it(n, k), end; it != end; ++it) { if (!f) r += ' '; f = false; r += ulist(*it); }
+        bool f = true; long cnt = 0;
+        for (Combination_iterator it(n, k), end; it != end; ++it) { RUNAWAY(cnt) if (!f) r += ' '; f = false; r += ulist(*it); }
       } else if (w == "ICB") {
         unsigned n = std::stoul(a[0]), k = std::stoul(a[1]);
         std::vector<unsigned> b; if (a.size() > 2) for (auto& x : split(a[2], ',')) b.push_back(std::stoul(x));
-        bool f = true;
+        bool f = true; long cnt = 0;
         for (Integer_combination_iterator it(n, k, b), end; it != end; ++it) {
-          if (!f) r += ' '; f = false;
+          RUNAWAY(cnt) if (!f) r += ' '; f = false;
           std::vector<unsigned> val((*it).begin(), (*it).begin() + k); r += ulist(val);
         }
       } else if (w == "OSP") {
         unsigned n = std::stoul(a[0]), k = std::stoul(a[1]);
-        bool f = true;
+        bool f = true; long cnt = 0;
         for (Ordered_set_partition_iterator it(n, k), end; it != end; ++it) {
-          if (!f) r += ' '; f = false;
+          RUNAWAY(cnt) if (!f) r += ' '; f = false;
           for (unsigned j = 0; j < k; j++) { if (j) r += '|'; r += ulist((*it)[j]); }
         }
       } else if (w == "L" || w == "LC") {
